@@ -8,6 +8,7 @@ import (
 
 	"github.com/opsidian/parsley/ast"
 	"github.com/opsidian/parsley/combinator"
+	"github.com/opsidian/parsley/parser"
 	"github.com/opsidian/parsley/parsley"
 	"github.com/opsidian/parsley/text"
 	"github.com/opsidian/parsley/text/terminal"
@@ -16,7 +17,7 @@ import (
 
 // TokSpec is one token of a C10 sequence with its trimming.
 type TokSpec struct {
-	Kind    int    `json:"kind"` // 0 Rune '(' 1 Op "==" 2 Word "let" 3 Integer 4 String
+	Kind    int    `json:"kind"` // 0 Rune '(' 1 Op "==" 2 Word "let" 3 Integer 4 String 5 Many1(b) 6 Any(a,ab) 7 Choice(',',Empty) 8 Empty
 	Text    string `json:"text"`
 	Left    int    `json:"left"`              // -1: no LeftTrim, else the mode
 	Right   int    `json:"right"`             // -1: no RightTrim, else the mode
@@ -27,6 +28,7 @@ type TokSpec struct {
 type C10Case struct {
 	Toks []TokSpec `json:"toks"`
 	Gaps []string  `json:"gaps"`
+	Pre  int       `json:"pre,omitempty"` // > 0: the source is the second file of its set, behind a file of that many bytes
 }
 
 func (c *C10Case) source() string {
@@ -116,6 +118,13 @@ func matchTok(d []byte, i int, ts TokSpec) (int, bool) {
 			e++
 		}
 		return e, e > i
+	case 7: // an optional comma: Choice(',', Empty())
+		if i < len(d) && d[i] == ',' {
+			return i + 1, true
+		}
+		return i, true
+	case 8: // Empty()
+		return i, true
 	case 6:
 		if e, ok := ModelPrefix(d, i, "ab"); ok {
 			return e, true // the longest reading; matchTokAll gives both
@@ -220,6 +229,10 @@ func tokParser(ts TokSpec) parsley.Parser {
 		p = combinator.Many1(terminal.Op("b"))
 	case 6:
 		p = combinator.Any(terminal.Op("a"), terminal.Op("ab"))
+	case 7:
+		p = combinator.Choice(terminal.Rune(','), parser.Empty())
+	case 8:
+		p = parser.Empty()
 	default:
 		p = terminal.String("s", false)
 	}
@@ -241,6 +254,7 @@ type c10Model struct {
 	wantErr  string
 	wantOff  int
 	spans    [][2]int
+	empty    []bool // the token matched nothing (an EMPTY node has one position: only its end is compared)
 }
 
 func modelC10(d []byte, toks []TokSpec) c10Model {
@@ -270,6 +284,7 @@ func modelC10(d []byte, toks []TokSpec) c10Model {
 			return m
 		}
 		sp := [2]int{cur, end}
+		m.empty = append(m.empty, cur == end)
 		cur = end
 		if right >= 0 {
 			e, ok, eo, len := judgeRun(d, cur, right)
@@ -289,7 +304,7 @@ func modelC10(d []byte, toks []TokSpec) c10Model {
 	return m
 }
 
-func parseC10(src string, toks []TokSpec) (node parsley.Node, err error, perr error) {
+func parseC10(src string, toks []TokSpec, pre int) (node parsley.Node, base int, err error, perr error) {
 	defer func() {
 		if r := recover(); r != nil {
 			perr = fmt.Errorf("panic: %v", r)
@@ -299,8 +314,7 @@ func parseC10(src string, toks []TokSpec) (node parsley.Node, err error, perr er
 	for i, ts := range toks {
 		parsers[i] = tokParser(ts)
 	}
-	f := text.NewFile("f", []byte(src))
-	ctx := parsley.NewContext(parsley.NewFileSet(f), text.NewReader(f))
+	ctx, _, base := NewCtxAt(src, pre)
 	node, err = parsley.Parse(ctx, combinator.Sentence(combinator.SeqOf(parsers...)))
 	return
 }
@@ -338,7 +352,7 @@ func checkC10(ci interface{}, st *Stats) error {
 		}
 	}
 	m := modelC10(d, c.Toks)
-	node, err, perr := parseC10(src, c.Toks)
+	node, base, err, perr := parseC10(src, c.Toks, c.Pre)
 	if perr != nil {
 		return perr
 	}
@@ -359,8 +373,9 @@ func checkC10(ci interface{}, st *Stats) error {
 					return fmt.Errorf("parsed %d tokens, want %d", len(seq), len(spans))
 				}
 				for i, ch := range seq {
-					if int(ch.Pos())-1 != spans[i][0] || int(ch.ReaderPos())-1 != spans[i][1] {
-						return fmt.Errorf("token %d spans %d..%d, the only reading that reaches the end of input has %d..%d", i, int(ch.Pos())-1, int(ch.ReaderPos())-1, spans[i][0], spans[i][1])
+					_, isEmpty := ch.(ast.EmptyNode) // one position only: its end is compared
+					if (int(ch.Pos())-base != spans[i][0] && !isEmpty) || int(ch.ReaderPos())-base != spans[i][1] {
+						return fmt.Errorf("token %d spans %d..%d, the only reading that reaches the end of input has %d..%d", i, int(ch.Pos())-base, int(ch.ReaderPos())-base, spans[i][0], spans[i][1])
 					}
 				}
 			}
@@ -380,6 +395,9 @@ func checkC10(ci interface{}, st *Stats) error {
 	}
 	if nonEmptyGap && otherMode {
 		st.NonTrivial()
+	}
+	if c.Pre > 0 {
+		st.Class("source is the second file of its set")
 	}
 	switch {
 	case m.lenient:
@@ -409,13 +427,19 @@ func checkC10(ci interface{}, st *Stats) error {
 		return fmt.Errorf("parsed %d tokens, want %d", len(seq), len(c.Toks))
 	}
 	for i, ch := range seq {
-		if int(ch.Pos())-1 != m.spans[i][0] || int(ch.ReaderPos())-1 != m.spans[i][1] {
-			return fmt.Errorf("token %d spans %d..%d, want %d..%d (only a right-trimmed node's end moves past the run)", i, int(ch.Pos())-1, int(ch.ReaderPos())-1, m.spans[i][0], m.spans[i][1])
+		if (int(ch.Pos())-base != m.spans[i][0] && !m.empty[i]) || int(ch.ReaderPos())-base != m.spans[i][1] {
+			return fmt.Errorf("token %d spans %d..%d, want %d..%d (only a right-trimmed node's end moves past the run)", i, int(ch.Pos())-base, int(ch.ReaderPos())-base, m.spans[i][0], m.spans[i][1])
 		}
 	}
 	// metamorphic: the same tokens with every removable run removed give the same result
 	gaps2 := make([]string, len(c.Gaps))
 	removed := false
+	emptyTok := false
+	for _, t := range c.Toks {
+		if t.Text == "" {
+			emptyTok = true // its neighbours may merge when the runs around it go: no whitespace-free twin
+		}
+	}
 	for i := range c.Gaps {
 		keep := false
 		if i > 0 && i < len(c.Toks) {
@@ -436,11 +460,14 @@ func checkC10(ci interface{}, st *Stats) error {
 			removed = true
 		}
 	}
-	if removed {
+	if emptyTok {
+		st.Class("accepted, with a token that matched nothing")
+	}
+	if removed && !emptyTok {
 		c2 := &C10Case{Toks: c.Toks, Gaps: gaps2}
 		src2 := c2.source()
 		if m2 := modelC10(normCRLF([]byte(src2)), c.Toks); !m2.mismatch && m2.wantErr == "" && !m2.lenient {
-			node2, err2, perr2 := parseC10(src2, c.Toks)
+			node2, _, err2, perr2 := parseC10(src2, c.Toks, c.Pre)
 			if perr2 != nil {
 				return perr2
 			}
@@ -463,7 +490,7 @@ func genC10(t *rapid.T) interface{} {
 	mode := func(label string) int { return rapid.SampledFrom([]int{0, 1, 1, 2, 2, 2, 3}).Draw(t, label) }
 	for i := 0; i < n; i++ {
 		ts := TokSpec{Left: -1, Right: -1}
-		ts.Kind = rapid.SampledFrom([]int{0, 1, 2, 3, 4, 0, 1, 2, 3, 4, 5, 5, 6}).Draw(t, "kind")
+		ts.Kind = rapid.SampledFrom([]int{0, 1, 2, 3, 4, 0, 1, 2, 3, 4, 5, 5, 6, 7, 7, 8}).Draw(t, "kind")
 		switch ts.Kind {
 		case 0:
 			ts.Text = "("
@@ -479,6 +506,10 @@ func genC10(t *rapid.T) interface{} {
 			ts.Text = rapid.SampledFrom([]string{"b", "bb", "bbb"}).Draw(t, "bs")
 		case 6:
 			ts.Text = rapid.SampledFrom([]string{"a", "ab", "ab"}).Draw(t, "amb")
+		case 7:
+			ts.Text = rapid.SampledFrom([]string{",", ""}).Draw(t, "comma")
+		case 8:
+			ts.Text = ""
 		}
 		switch rapid.IntRange(0, 4).Draw(t, "trimkind") {
 		case 0:
@@ -497,6 +528,9 @@ func genC10(t *rapid.T) interface{} {
 	}
 	ws := func() string {
 		k := rapid.IntRange(1, 3).Draw(t, "wsn")
+		if rapid.IntRange(0, 11).Draw(t, "longws") == 5 {
+			k = rapid.IntRange(15, 40).Draw(t, "wslong") // longer than any word-at-a-time scan
+		}
 		s := ""
 		for i := 0; i < k; i++ {
 			s += rapid.SampledFrom([]string{" ", " ", "\t", "\n", "\n", "\r\n", "\f"}).Draw(t, "wsc")
@@ -517,6 +551,12 @@ func genC10(t *rapid.T) interface{} {
 			}
 		}
 		c.Gaps = append(c.Gaps, g)
+	}
+	switch rapid.IntRange(0, 5).Draw(t, "place") {
+	case 0, 1:
+		c.Pre = rapid.IntRange(1, 12).Draw(t, "pre")
+	case 2:
+		c.Pre = rapid.SampledFrom([]int{65533, 65536, 70001}).Draw(t, "prehuge")
 	}
 	return c
 }
